@@ -87,7 +87,42 @@ def ladder_template(rep, cfg, p, key, both_variants, check_callers):
     S, bits = mk("param", "self"), mk("param", "le_bits")
     probs = []
     ok = False
-    if not (v.op == "proj" and v.args[0].op == "fold"):
+    if v.op == "proj" and v.args[0].op == "fold" and v.args[0].args[0].op == "flat_map_t":
+        # one loop over the flattened bit stream  limbs.flat_map(|limb| (0..64).map(|i| (limb >> i) & 1))
+        it, flagitem, accs, inits, nexts = v.args[0].args
+        limb, inner, src = it.args
+        stream_ok = src is bits and limb is mk("item_of", src) and inner.op == "seq_map_t"
+        if stream_ok:
+            i_, body, rngsrc = inner.args
+            rng = dict(zip(rngsrc.args[1], rngsrc.args[2:])) if rngsrc.op == "struct" and rngsrc.args[0] == "core::ops::Range" else {}
+            bitv = Tm.intop("band", Tm.intop("shr", limb, i_), lit(1))
+            b_ = body
+            while b_.op == "cast":
+                b_ = b_.args[1]
+            stream_ok = rng.get("start") is lit(0) and rng.get("end") is lit(64) and i_ is mk("item_of", rngsrc) and b_ is bitv
+        if not stream_ok:
+            probs.append("the bit stream must be every limb of `le_bits` in order, bits 0..64 of each, as (limb >> i) & 1; iterator = %s" % Tm.show(it, maxdepth=6))
+        ident = [k for k, t in enumerate(inits) if G.den(t) is mk("gzero") or is_identity_const(t)]
+        selfi = [k for k, t in enumerate(inits) if t is S]
+        if len(accs) != 2 or len(ident) != 1 or len(selfi) != 1 or ident[0] == selfi[0]:
+            probs.append("state must be (acc = IDENTITY, insert = self); got %s" % [Tm.show(t, maxdepth=3) for t in inits])
+        else:
+            ai, ii = ident[0], selfi[0]
+            if v.args[1] != ai:
+                probs.append("the function returns the running multiple instead of the accumulator")
+            a2, s2 = accs[ai], accs[ii]
+            if G.den(nexts[ii]) is not mk("gdbl", s2):
+                probs.append("running multiple must be doubled once per bit: insert' = G_DBL(insert); got %s" % Tm.show(G.den(nexts[ii]), maxdepth=5))
+            t = G.den(nexts[ai])
+            add_ = mk("gadd", a2, s2)
+            cond_flag = None
+            if t.op == "ite" and t.args[1] is add_ and t.args[2] is a2:
+                cond_flag = t.args[0]
+            elif t.op == "ite" and t.args[2] is add_ and t.args[1] is a2:
+                cond_flag = Tm.not_(t.args[0])
+            if cond_flag is None or not is_bit_test(cond_flag, flagitem):
+                probs.append("acc' must be ITE(bit, G_ADD(acc, insert), acc) on the stream's bit; got %s" % Tm.show(t, maxdepth=6))
+    elif not (v.op == "proj" and v.args[0].op == "fold"):
         probs.append("result is not the accumulator of a loop over the limb slice: %s" % Tm.show(v, maxdepth=4))
     else:
         outer = v.args[0]
